@@ -150,6 +150,21 @@ def execute(case, phase, prefix, seed):
                 viol.append(("wrong-bytes", "downloaded %d bytes != uploaded %d bytes (first difference at %d)" % (
                     len(got), len(data), next((i for i, (a, b_) in enumerate(zip(got, data)) if a != b_), min(len(got), len(data))))))
         g.quiesce()
+        # reading it back need not start at byte 0: the FIRST read of a fresh node object asks for the
+        # tail from the start of the last segment (the downloader has to guess the segment size then)
+        if isinstance(u, tahoe_uri.CHKFileURI) and case["size"] > case["seg"] and not viol and b2 and b2[0][0] == "ok":
+            import gc
+            del node, cons
+            gc.collect()
+            node2 = c.create_node_from_uri(cap)
+            segsize = -(-case["seg"] // case["k"]) * case["k"]
+            off = ((case["size"] - 1) // segsize) * segsize
+            b3, cons3 = lib_imm.read(g, node2, off, None)
+            if not b3 or b3[0][0] != "ok":
+                viol.append(("tail-read-on-fresh-node-failed", "read(offset=%d) as the first read of a fresh node: %s" % (off, "never fired" if not b3 else b3[0][1].getErrorMessage()[:200])))
+            elif cons3.data() != data[off:]:
+                viol.append(("tail-read-wrong-bytes", "read(offset=%d) on a fresh node returned %d bytes, expected %d" % (off, len(cons3.data()), len(data) - off)))
+            g.quiesce()
         obs["events"] = len(g.sched.log)
         errs = boot.R.take_errors()
         if errs:
